@@ -87,6 +87,19 @@ func (p *pool) execute(c *Case) error {
 	pod := &api.PodSandbox{Id: "pod-" + id, Name: "pod"}
 	ctx := context.Background()
 	var err error
+	// a panic inside the adaptation is an observation (the runtime process would have died), not a reason to
+	// stop the driver: it is recorded as error class 4 and judged by the predicates
+	defer func() {
+		if r := recover(); r != nil {
+			c.Err, c.ErrText = 4, fmt.Sprintf("panic: %v", r)
+			c.Reply, c.Updates, c.Combined, c.Sequent = nil, nil, nil, nil
+			for _, pos := range c.Plugins {
+				p.plugins[pos].TakeSeen(id)
+			}
+			c.Views = nil
+			c.Crashed = true
+		}
+	}()
 	switch c.Kind {
 	case "create":
 		var rpl *api.CreateContainerResponse
@@ -116,9 +129,8 @@ func (p *pool) execute(c *Case) error {
 		}
 	}
 	c.Err, c.ErrText = errClass(err)
-	if c.Err == 3 {
-		return fmt.Errorf("unexpected error from the adaptation: %v", err)
-	}
+	// class 3: an error that is neither a conflict nor the self-update refusal; an observation, judged by the
+	// predicates (C02: no conflict => no error) and reported by the Go oracle below
 	asked := true
 	for _, pos := range c.Plugins {
 		s, ok := p.plugins[pos].TakeSeen(id)
@@ -269,7 +281,34 @@ func (g *G) planIgnored(p *planner, n int, targets []string) {
 	for _, it := range mine[:len(mine)-1] {
 		p.take(t, it, j) // reserved: nobody else may set what the dropped update names
 	}
+	// a claim the SAME plugin made in an earlier, successful update of its response must survive its dropped
+	// update too: a third of the time j first sets an item z2 (of any target) and a later plugin collides with it
+	var own *Item
+	ownT := targets[g.r.Intn(len(targets))]
+	if j < n-1 && g.r.Intn(3) == 0 {
+		g.aftermath++
+		for x := range updatableItems {
+			z := updatableItems[(g.aftermath+x)%len(updatableItems)]
+			named := false
+			for _, it := range mine {
+				if it == z {
+					named = true
+				}
+			}
+			if !named && p.free(ownT, z) {
+				p.take(ownT, z, j)
+				p.update(j, ownT, []Item{z}, false, false)
+				own = &z
+				break
+			}
+		}
+	}
 	p.update(j, t, mine, true, false)
+	if own != nil {
+		k := j + 1 + g.r.Intn(n-j-1)
+		p.update(k, ownT, []Item{*own}, false, false)
+		return
+	}
 	// aftermath: a claim made BEFORE the dropped update must survive it — half of the time a later plugin
 	// collides with an item the first plugin set (an item the dropped update does not name): conflict expected
 	if j < n-1 && g.r.Intn(3) != 0 {
@@ -402,7 +441,7 @@ func driveAdapt(c *hx.Ctx) error {
 	}
 	per := c.Pick(8, 120)
 	for _, kind := range collisionKinds() {
-		for v := 0; v < 5; v++ {
+		for v := 0; v < 6; v++ {
 			if v > 0 && !markable[kind.Kind] {
 				continue
 			}
@@ -496,6 +535,10 @@ func driveAdapt(c *hx.Ctx) error {
 			}
 		}
 		c.Eval(string(js), nontrivial)
+		// a panic or an error that is neither a conflict nor the self-update refusal: no property allows it
+		if cs.Err >= 3 {
+			c.ImplFail("adapt", "the adaptation answered the request with "+cs.ErrText, cs)
+		}
 		// implementation-only oracle of C03: the generator on the combined reply vs plugin by plugin
 		if cs.Combined != nil && wfCreate(cs.Resps) && !reflect.DeepEqual(canonSpec(cs.Combined), canonSpec(cs.Sequent)) {
 			c.ImplFail("adapt", "C03: applying the combined adjustment differs from applying the plugins' adjustments in turn", cs)
